@@ -41,7 +41,7 @@ def selfRecursiveRel (p : Program) (rel : String) : Bool :=
       at smaller depth (backward_chaining.rs:155-180). -/
 def classOf (r : WhyReq) (t : Tree) : String :=
   if isFallbackRoot t then "no_proof_found"
-  else if hasTrunc t then (if selfRecursive r.kg.rules then "memo_truncated_reuse" else "truncated_nonrecursive")
+  else if hasTrunc t then "truncated_within_limit"
   else if (derivedLeaves t).any (selfRecursiveRel r.kg.rules) then "cycle_cut_memoized"
   else "derived_leaf"
 
